@@ -198,7 +198,7 @@ class BuildLoop(LoopContract):
         return self.k
 
     def element_kinds(self):
-        return ["value", "external-register", "external-parameter", "external-string", "macro-argument", "float-param"]
+        return ["value", "value-parameter", "external-register", "external-parameter", "external-string", "macro-argument", "float-param"]
 
     def check_entry(self, it, env, seq):
         self.oblige(it, "build_arg_list#loop.base", "", env.vars.get("code") == "")
@@ -216,6 +216,11 @@ class BuildLoop(LoopContract):
         self.kind = kind
         if kind == "value":
             self.arg, pt = irkit.mk_operand(it, "Variable", (True, 32), "arg"), conc_vt(L, (True, 32))
+        elif kind == "value-parameter":
+            # a borrowed pure parameter of the routine being compiled, passed on: it must be READ (raw once, DUP afterwards)
+            self.arg, pt = it.call(irkit.C(L, "Parameter"), ["p", conc_vt(L, (True, 32))], {}), conc_vt(L, (True, 32))
+            self.arg.fields["reads"] = self.reads0 = SInt(z3.Int("reads0"))
+            it.ctx.assume(self.reads0.t >= 0)
         elif kind == "external-register":
             self.arg, pt = it.call(irkit.C(L, "Register"), ["Rd", RA.W, conc_vt(L, (True, 32))], {}), ext
         elif kind == "external-parameter":
@@ -238,6 +243,14 @@ class BuildLoop(LoopContract):
         ok = parts is not None and isinstance(parts[0], Atom) and parts[0].kind == "prefix" and not broke
         tail = Tpl(parts[1:]) if ok else None
         txt = tail.render(lambda a: f"@{a.tag}") if tail is not None else None
+        if kind == "value-parameter":
+            r1 = self.arg.fields["reads"]
+            self.oblige(it, "build_arg_list#loop.step: a borrowed pure parameter is passed on through il_read (read counter advances)", f"element={kind}",
+                        isinstance(r1, SInt) and r1.t == self.reads0.t + 1, detail=f"reads {r1!r}")
+            first = it.ctx  # noqa: F841
+            self.oblige(it, "build_arg_list#loop.step: first read raw, later reads DUP(p)", f"element={kind}",
+                        z3.And(z3.Implies(self.reads0.t == 0, z3.BoolVal(txt in ("p", ", p"))), z3.Implies(self.reads0.t >= 1, z3.BoolVal(txt in ("DUP(p)", ", DUP(p)")))), detail=repr(txt))
+            return
         want = {"value": "@arg", "float-param": "@arg", "external-register": "Rd_op", "external-parameter": "bundle",
                 "external-string": "HEX_REG_FIELD_USR_LPCFG", "macro-argument": "HEX_REGFIELD()"}[kind]
         # the separator is written iff this is not the first argument
@@ -287,17 +300,18 @@ def gen_callbacks(loader, check, replay_on=True):
                          irkit.C(loader, "SubRoutine").methods["get_parameter_value_types"], irkit.C(loader, "SubRoutineCall").methods["__init__"])
     SubC = irkit.C(loader, "SubRoutineCall")
     G = loader.load("rzilcompiler.Transformer.ValueType").globals["VTGroup"]
-    for ret in [(False, 32), (True, 8), (False, 64)]:
-        for at in [(True, 8), (False, 32), (True, 64)]:
-            inst = f"fn(uint16_t, int64_t) -> {tname(ret)} called with ({tname(at)}, {tname(at)})"
+    for ret, at, k1 in [(r_, a_, k_) for r_ in [(False, 32), (True, 8), (False, 64)] for a_ in [(True, 8), (False, 32), (True, 64)] for k_ in ("Register", "HybridTmp")]:
+        if True:
+            inst = f"fn(uint16_t, int64_t) -> {tname(ret)} called with ({tname(at)}, {k1}:{tname(at)})"
             check.instances_declared += 1
 
-            def setup(it, ret=ret, at=at):
+            def setup(it, ret=ret, at=at, k1=k1):
                 t = tkit.mk_transformer(it)
                 pars = [it.call(irkit.C(loader, "Parameter"), ["p0", conc_vt(loader, (False, 16))], {}), it.call(irkit.C(loader, "Parameter"), ["p1", conc_vt(loader, (True, 64))], {})]
                 sr = it.call(irkit.C(loader, "SubRoutine"), ["fn", conc_vt(loader, ret), pars, "return NOP();"], {})
                 t.fields["sub_routines"]["fn"] = sr
-                a0, a1 = irkit.mk_operand(it, "Variable", at, "a0"), irkit.mk_operand(it, "Register", at, "a1")
+                # second argument: a register, or the placeholder of another value-producing operation (nested call / i++)
+                a0, a1 = irkit.mk_operand(it, "Variable", at, "a0"), irkit.mk_operand(it, k1, at, "a1")
                 it.ctx.mark_pre(t)
                 return {"t": t, "sr": sr, "a": [a0, a1]}
             ex = explore(loader, setup, lambda it, st: it.call(tkit.method(it, st["t"], "sub_routine"), [["fn", st["a"][0], st["a"][1]]], {}))
